@@ -125,6 +125,16 @@ CLAIMED = {
     note='trusted: structural snapshot function, family membership; programs outside the families and longer histories outside',
     technique='bounded symbolic execution of translators under symbolic translation histories and symbolic RNG; differential vs fresh translator',
     design='4/C11'),
+ 'C13': dict(
+    text='Bounded symbolic execution over program families (41 fixtures + generated programs) at the three stages the driver saves '
+         '(generated, erased, erased+overwritten): after the real dump_program/load_program round trip the copy translates '
+         'identically in four languages, is structurally identical (attribute-level IR diff + context tables), a second dump is '
+         'stable and type erasure gives the same result; mutation equivalence: TypeOverwriting.transform runs on the original under a '
+         'symbolic RNG (first 1 (thorough 3) draws symbolic: method, node, type parameter), the recorded draws are replayed on the '
+         'reloaded copy, candidate-list lengths, outcome, message and resulting IR must coincide.',
+    note='trusted: IR diff / snapshot functions (vlib/pipeline.py), family membership; the solver mostly enumerates RNG outcomes here',
+    technique='bounded symbolic execution of dump/load round trips and of the mutations under a shared symbolic RNG (record/replay)',
+    design='4/C13'),
 }
 
 NOT_YET = 'check not built yet in this round (planned per DESIGN.md build order); not claimed'
